@@ -33,6 +33,7 @@ ROOT = Path(__file__).resolve().parent.parent
 LEAN = ROOT / "lean"
 HARNESS = ROOT / "harness"
 PY = "/venv/bin/python"
+REPO = os.environ.get("VERIF_REPO", "/repo")     # scratch worktrees of /repo can be checked by setting VERIF_REPO
 ALLOWED_AXIOMS = {"propext", "Classical.choice", "Quot.sound"}
 FORBIDDEN = re.compile(r"\bsorry\b|\badmit\b|^\s*axiom\s|native_decide|bv_decide|implemented_by|\bunsafe\s|maxHeartbeats\s+0")
 
@@ -175,7 +176,7 @@ def run_impl(module: str, cases: list[dict], env: dict | None = None, timeout_ca
     try:
         envp = dict(os.environ)
         envp.update({k: str(v) for k, v in (env or {}).items()})
-        envp["PYTHONPATH"] = f"{HARNESS}:/repo"
+        envp["PYTHONPATH"] = f"{HARNESS}:{REPO}"
         envp["DISSECT_HYPERVISOR_VERIF"] = "1"
         procs = []
         for i, ch in enumerate(chunks):
